@@ -107,6 +107,37 @@ def run(chk):
     dbg = [(seq, _impl(seq, debug=True)[0]) for L in range(0, 5) for seq in itertools.product(range(9), repeat=L)]
     chk.count('sequences_under_debug_logging', len(dbg))
     _compare(chk, dbg)
+    # optional arguments (whatever the signature offers beyond the okta list): calls that use them must not change what
+    # later default calls return - the function is a pure function of its argument list
+    import inspect
+    from ampycloud import icao
+    try:
+        extra = [p for p in list(inspect.signature(icao.significant_cloud).parameters.values())[1:]
+                 if p.default is not inspect.Parameter.empty]
+    except (TypeError, ValueError):
+        extra = []
+    for p in extra:
+        cands = []
+        if isinstance(p.default, bool):
+            cands = [not p.default]
+        elif isinstance(p.default, int):
+            cands = [p.default + d for d in (-2, -1, 1, 2, 5)] + [0]
+        elif isinstance(p.default, float):
+            cands = [p.default * 2, p.default / 2, 0.0]
+        elif isinstance(p.default, (list, tuple)):
+            cands = [type(p.default)(), type(p.default)(list(p.default) * 2)]
+        elif p.default is None:
+            cands = [0, 1, [], 'x']
+        for v in cands:
+            for seq in ([1, 3, 5, 7, 8], [8, 8, 8, 8], [0, 1, 2]):
+                try:
+                    icao.significant_cloud(list(seq), **{p.name: v})
+                except Exception:
+                    pass
+        chk.count('optional_arguments_exercised_before_the_default_calls')
+    if extra:
+        after = [(seq, _impl(seq)[0]) for L in range(0, 5) for seq in itertools.product(range(9), repeat=L)]
+        _compare(chk, after)
     return _search
 
 
